@@ -6,6 +6,10 @@ import (
 	"go/types"
 	"sort"
 	"strings"
+
+	"golang.org/x/tools/go/ssa"
+
+	"verif/checker/core"
 )
 
 // R-DROP-1: no error result is dropped.
@@ -18,8 +22,8 @@ import (
 
 func init() {
 	Register(&Rule{ID: "R-DROP-1", Props: []string{"C02", "C01", "C19", "C10"}, Floor: 1300,
-		Doc:      "no error is dropped on the floor: (a) in every csvq package, no call whose result type is error (or a tuple containing error) is used as an expression statement, deferred or started with go — `defer w.Flush()` loses the only report that the last buffer could not be encoded or written, and the caller then announces a complete file; calls that cannot fail by contract are listed by callee with the reason (writes into bytes.Buffer / strings.Builder, fmt.Print* to the process streams); (b) an explicit `_ =` / `x, _ :=` discard is accepted as a visible decision except for output primitives — callee named Write*, Flush, Sync, Close, Truncate, Seek, Rename, Remove*, Commit* — whose error is the difference between a table that was written and one that was not. Decides that errors are looked at, not that they are handled correctly",
-		Controls: []string{"CtlDeferredFlushDropsError", "CtlBlankedWriteError"},
+		Doc:      "no error is dropped on the floor: (a) in every csvq package, no call whose result type is error (or a tuple containing error) is used as an expression statement, deferred or started with go — `defer w.Flush()` loses the only report that the last buffer could not be encoded or written, and the caller then announces a complete file; calls that cannot fail by contract are listed by callee with the reason (writes into bytes.Buffer / strings.Builder, fmt.Print* to the process streams); (b) an explicit `_ =` / `x, _ :=` discard is accepted as a visible decision except for output primitives — callee named Write*, Flush, Sync, Close, Truncate, Seek, Rename, Remove*, Commit* — whose error is the difference between a table that was written and one that was not — and (c) for encode primitives: the csvq functions with an error result that the writer (lib/query.EncodeView) reaches through static calls and that can return a non-nil error (every return is followed, through result cells and through callees whose error is passed on) — their error is the refusal of a value the output format cannot spell (C02), and whoever else encodes with them (JSON_OBJECT builds its text with the record → JSON conversion of the JSON Lines writer) has to pass the refusal on instead of returning the text of a nil structure. A function that cannot fail may be blanked: the discard becomes a finding the day the function becomes fallible. Decides that errors are looked at, not that they are handled correctly",
+		Controls: []string{"CtlDeferredFlushDropsError", "CtlBlankedWriteError", "CtlBlankedEncodeError"},
 		Run:      ruleDrop1})
 }
 
@@ -110,7 +114,117 @@ func errorResultIndexes(t types.Type) []int {
 	return out
 }
 
+// dropEncodePrimitives: csvq functions with an error result that EncodeView reaches and that can fail.
+func dropEncodePrimitives(c *Ctx) map[*types.Func]bool {
+	out := map[*types.Func]bool{}
+	root := c.Fn("lib/query.EncodeView")
+	if root == nil {
+		return out
+	}
+	fallible := map[*ssa.Function]int{} // 1 in progress / no, 2 yes
+	var canFail func(f *ssa.Function) bool
+	canFail = func(f *ssa.Function) bool {
+		if f == nil || f.Blocks == nil {
+			return true // foreign or bodiless: assume it can
+		}
+		switch fallible[f] {
+		case 1:
+			return false
+		case 2:
+			return true
+		}
+		fallible[f] = 1
+		idx := core.ErrorResultIndex(f)
+		if idx < 0 {
+			return false
+		}
+		for _, r := range core.Returns(f) {
+			for _, v := range core.ReturnOperand(r, idx) {
+				if v == nil {
+					continue // zero value of the result cell
+				}
+				for _, o := range core.Origins(v, false) {
+					if core.IsNilConst(o) {
+						continue
+					}
+					if call, _, ok := core.ExtractOf(o); ok {
+						if g := call.Common().StaticCallee(); g != nil && g.Blocks != nil && c.P.Name(g) != g.String() {
+							if canFail(g) {
+								fallible[f] = 2
+								return true
+							}
+							continue
+						}
+					}
+					fallible[f] = 2
+					return true
+				}
+			}
+		}
+		return false
+	}
+	// the writer's own chain: static calls only (what a String() method reached through an interface can do is
+	// not part of encoding a table)
+	chain := map[*ssa.Function]bool{root: true}
+	work := []*ssa.Function{root}
+	for len(work) > 0 {
+		f := work[len(work)-1]
+		work = work[:len(work)-1]
+		for _, g := range append([]*ssa.Function{f}, f.AnonFuncs...) {
+			for _, call := range core.Calls(g) {
+				h := call.Common().StaticCallee()
+				if h == nil || h.Blocks == nil || chain[h] || c.P.Name(h) == h.String() || c.P.IsControl(h) {
+					continue
+				}
+				chain[h] = true
+				work = append(work, h)
+			}
+		}
+	}
+	var fns []*ssa.Function
+	for f := range chain {
+		fns = append(fns, f)
+	}
+	sortFuncs(c.P, fns)
+	for _, f := range fns {
+		if f == root || f.Parent() != nil {
+			continue
+		}
+		obj, ok := f.Object().(*types.Func)
+		if !ok || core.ErrorResultIndex(f) < 0 {
+			continue
+		}
+		// error constructors return the error they build: nobody blanks those, and they are not primitives
+		if f.Signature.Results().Len() == 1 {
+			continue
+		}
+		if canFail(f) {
+			out[obj] = true
+		}
+	}
+	return out
+}
+
+func dropCalleeObj(info *types.Info, call *ast.CallExpr) *types.Func {
+	var id *ast.Ident
+	switch f := ast.Unparen(call.Fun).(type) {
+	case *ast.Ident:
+		id = f
+	case *ast.SelectorExpr:
+		id = f.Sel
+	}
+	if id == nil {
+		return nil
+	}
+	fn, _ := info.Uses[id].(*types.Func)
+	return fn
+}
+
 func ruleDrop1(c *Ctx) {
+	encodePrims := dropEncodePrimitives(c)
+	if len(encodePrims) < 5 {
+		c.Unknown("anchor:encode primitives", "-", fmt.Sprintf("cannot-analyse: only %d fallible csvq function(s) are reachable from EncodeView (the JSON conversions and the per-format encoders were confirmed by hand)", len(encodePrims)))
+	}
 	var pkgs []string
 	for short := range c.P.ByPath {
 		pkgs = append(pkgs, short)
@@ -170,6 +284,15 @@ func ruleDrop1(c *Ctx) {
 						}
 					}
 					if !prim {
+						if obj := dropCalleeObj(info, call); obj != nil && encodePrims[obj] {
+							for _, i := range idx {
+								if i < len(lhs) {
+									if id, ok := lhs[i].(*ast.Ident); ok && id.Name == "_" {
+										bad = append(bad, finding{"blank " + full, c.P.Pos(call.Pos()), "the error of the encode primitive " + full + " is assigned to _: the function is used by the writer (EncodeView reaches it) and can fail — its error says that the value cannot be spelled in the output format; here the caller goes on with the result of a failed conversion"})
+									}
+								}
+							}
+						}
 						return
 					}
 					if _, ok := dropNeverFails[full]; ok {
